@@ -1,7 +1,11 @@
 (* Model of the caching reader (bbiread.rs CachedBBIFileRead): a map from node offsets to parsed
    index nodes and a map from blocks to their (inflated) bytes, the latter cleared when it holds
    CACHE_LIMIT entries.  A reader with a cache is a state machine; the stateless functions of
-   Model/BBIRead.v are the specification it must agree with for every query history (C03). *)
+   Model/BBIRead.v are the specification it must agree with for every query history (C03).
+
+   HashMap entries are only ever inserted on a miss (Entry::Vacant / get = None), so an
+   association list extended at the front has the same content and the same length as the map.
+   No proofs in this file. *)
 From BT Require Import Base.Util Base.LE Base.Float Generated.Consts Model.RTree Model.BBIFile Model.BigWigWrite Model.BBIRead.
 Local Open Scope N_scope.
 
@@ -28,7 +32,7 @@ Definition c_read_node (big : bool) (bs : list N) (c : cache) (off : N) : res pn
 Section Inflate.
 Variable infl : list N -> list N.
 
-(* get_block_data through the cache *)
+(* get_block_data through the cache: hit; else clear when full, read, insert *)
 Definition c_block_data (i : info) (bs : list N) (c : cache) (b : block) : res (list N) * cache :=
   match assocB b (c_blocks c) with
   | Some d => (Ok d, c)
@@ -65,7 +69,15 @@ Fixpoint c_search_loop (fuel : nat) (big : bool) (bs : list N) (c : cache) (queu
       end
   end.
 
-(* the per-block decoding of Model/BBIRead.v with the block bytes coming through the cache *)
+(* search_cir_tree through the cache (io errors of the node reads become BBIReadError::IoError) *)
+Definition c_search_blocks (i : info) (bs : list N) (c : cache) (root chrom s e : N) : res (list block) * cache :=
+  match c_search_loop (S (length bs)) (h_big (i_hdr i)) bs c [root] chrom s e with
+  | (Err _, c1) => (Err R_IO, c1)
+  | r => r
+  end.
+
+(* the per-block decoding of Model/BBIRead.v block_values, applied to block bytes that came
+   through the cache *)
 Definition block_values_of (i : info) (d : list N) (chrom s e : N) : res (option (list value)) :=
   let big := h_big (i_hdr i) in
   if (length d <? 24)%nat then Panic else
@@ -85,15 +97,23 @@ Definition block_values_of (i : info) (d : list N) (chrom s e : N) : res (option
     if (length body <? count * 4)%nat then Panic else Ok (Some (clip_filter s e (parse_type3 big step span cstart count body)))
   else Err R_INVALID.
 
-Fixpoint c_collect (i : info) (bs : list N) (c : cache) (chrom s e : N) (l : list block) : res (list value) * cache :=
+(* ... and of zoom_block_values *)
+Definition zoom_values_of (i : info) (d : list N) (chrom s e : N) : res (option (list zrec)) :=
+  if negb (Nat.eqb (length d mod 32) 0) then Panic else
+  Ok (Some (filter (fun z => (z_chrom z =? chrom) && (s <=? z_end z) && (z_start z <=? e))
+                   (parse_zrecs (h_big (i_hdr i)) (length d / 32) d))).
+
+(* the block-by-block iteration (BigWigIntervalIter / ZoomIntervalIter), fully drained *)
+Fixpoint c_collect_with {X} (dec : list N -> res (option (list X))) (i : info) (bs : list N) (c : cache)
+         (l : list block) : res (list X) * cache :=
   match l with
   | [] => (Ok [], c)
   | b :: r =>
       match c_block_data i bs c b with
       | (Ok d, c1) =>
-          match block_values_of i d chrom s e with
+          match dec d with
           | Ok a =>
-              match c_collect i bs c1 chrom s e r with
+              match c_collect_with dec i bs c1 r with
               | (Ok rest, c2) => (Ok (match a with Some x => x ++ rest | None => rest end), c2)
               | x => x
               end
@@ -102,6 +122,8 @@ Fixpoint c_collect (i : info) (bs : list N) (c : cache) (chrom s e : N) (l : lis
       | (Err e, c1) => (Err e, c1) | (Panic, c1) => (Panic, c1) | (Fuel, c1) => (Fuel, c1)
       end
   end.
+Definition c_collect (i : info) (bs : list N) (c : cache) (chrom s e : N) (l : list block) : res (list value) * cache :=
+  c_collect_with (fun d => block_values_of i d chrom s e) i bs c l.
 
 (* get_interval on a caching reader, fully drained *)
 Definition c_bw_interval (bs : list N) (i : info) (c : cache) (cn : name) (s e : N) : res (list value) * cache :=
@@ -109,9 +131,9 @@ Definition c_bw_interval (bs : list N) (i : info) (c : cache) (cn : name) (s e :
   | Ok chrom =>
       match cir_tree_root (h_big (i_hdr i)) bs (h_full_index_off (i_hdr i)) with
       | Ok root =>
-          match c_search_loop (S (length bs)) (h_big (i_hdr i)) bs c [root] chrom s e with
+          match c_search_blocks i bs c root chrom s e with
           | (Ok blocks, c1) => c_collect i bs c1 chrom s e blocks
-          | (Err _, c1) => (Err R_IO, c1)
+          | (Err x, c1) => (Err x, c1)
           | (Panic, c1) => (Panic, c1)
           | (Fuel, c1) => (Fuel, c1)
           end
@@ -120,10 +142,75 @@ Definition c_bw_interval (bs : list N) (i : info) (c : cache) (cn : name) (s e :
   | Err x => (Err x, c) | Panic => (Panic, c) | Fuel => (Fuel, c)
   end.
 
-(* a query history against one caching reader: the answers in order *)
+(* values() on a caching reader *)
+Definition c_bw_values (bs : list N) (i : info) (c : cache) (cn : name) (s e : N) : res (list (option N)) * cache :=
+  if e <? s then (Panic, c) else
+  match c_bw_interval bs i c cn s e with
+  | (Ok vals, c1) => (Ok (fill_values s e vals), c1)
+  | (Err x, c1) => (Err x, c1)
+  | (Panic, c1) => (Panic, c1)
+  | (Fuel, c1) => (Fuel, c1)
+  end.
+
+(* get_zoom_interval on a caching reader, fully drained *)
+Definition c_zoom_interval (bs : list N) (i : info) (c : cache) (cn : name) (s e res_level : N) : res (list zrec) * cache :=
+  match find (fun z => zh_res z =? res_level) (i_zooms i) with
+  | None => (Err R_NOZOOM, c)
+  | Some zh =>
+      match cir_tree_root (h_big (i_hdr i)) bs (zh_index zh) with
+      | Ok root =>
+          match chrom_id i cn with
+          | Ok chrom =>
+              match c_search_blocks i bs c root chrom s e with
+              | (Ok blocks, c1) => c_collect_with (fun d => zoom_values_of i d chrom s e) i bs c1 blocks
+              | (Err x, c1) => (Err x, c1)
+              | (Panic, c1) => (Panic, c1)
+              | (Fuel, c1) => (Fuel, c1)
+              end
+          | Err x => (Err x, c) | Panic => (Panic, c) | Fuel => (Fuel, c)
+          end
+      | Err x => (Err x, c) | Panic => (Panic, c) | Fuel => (Fuel, c)
+      end
+  end.
+
+(* a query history of interval queries against one caching reader: the answers in order *)
 Fixpoint c_history (bs : list N) (i : info) (c : cache) (qs : list (name * N * N)) : list (res (list value)) :=
   match qs with
   | [] => []
   | (cn, s, e) :: r => let '(a, c1) := c_bw_interval bs i c cn s e in a :: c_history bs i c1 r
   end.
+
+(* ---- the reader as a state machine over all three kinds of range query ---- *)
+Inductive query :=
+| QInterval (cn : name) (s e : N)
+| QValues (cn : name) (s e : N)
+| QZoom (cn : name) (s e res_level : N).
+Inductive answer :=
+| AInterval (r : res (list value))
+| AValues (r : res (list (option N)))
+| AZoom (r : res (list zrec)).
+
+(* the stateless reader of Model/BBIRead.v *)
+Definition fresh_answer (bs : list N) (i : info) (q : query) : answer :=
+  match q with
+  | QInterval cn s e => AInterval (bw_interval infl bs i cn s e)
+  | QValues cn s e => AValues (bw_values infl bs i cn s e)
+  | QZoom cn s e lvl => AZoom (zoom_interval infl bs i cn s e lvl)
+  end.
+
+Definition qstep (bs : list N) (i : info) (c : cache) (q : query) : answer * cache :=
+  match q with
+  | QInterval cn s e => let '(a, c1) := c_bw_interval bs i c cn s e in (AInterval a, c1)
+  | QValues cn s e => let '(a, c1) := c_bw_values bs i c cn s e in (AValues a, c1)
+  | QZoom cn s e lvl => let '(a, c1) := c_zoom_interval bs i c cn s e lvl in (AZoom a, c1)
+  end.
+
+Fixpoint qrun (bs : list N) (i : info) (c : cache) (qs : list query) : list answer * cache :=
+  match qs with
+  | [] => ([], c)
+  | q :: r => let '(a, c1) := qstep bs i c q in let '(rest, c2) := qrun bs i c1 r in (a :: rest, c2)
+  end.
 End Inflate.
+
+(* Reopen for CachedBBIFileRead: a new handle on the same file, both maps cloned *)
+Definition c_reopen (c : cache) : cache := {| c_nodes := c_nodes c; c_blocks := c_blocks c |}.
